@@ -35,6 +35,9 @@ CHECKS = {
  "C13": ("model_checking",
          "The raw InterpreterMonitor callback stream of every recorded step() of both engines (all campaign cases incl. error, cancel and top-level-final runs) is checked by TLC against a chart-independent specification of the callback protocol (bracket nesting, phase order exits<=transitions<=entries, stable notice once per macrostep) and cross-checked against the logger, the queue wrappers and getConfiguration().",
          "5 C13", "TLC trace validation of raw callback streams against the Monitor protocol specification (Trace_Monitor)"),
+ "C19": ("exploration",
+         "Every base chart (directed, bounded-exhaustive E samples, random) is validated unedited in every datamodel that can express it and after each applicable single edit (ten kinds: dangling target/initial, initial outside, history without/with two/with an evented default, non-orthogonal targets, duplicate id, missing id, <initial> with event); documents without fatal issue are run and transpiled to C, Promela and VHDL in forked children; TLC evaluates the TLA+ predicate WellFormed on the raw chart and checks completeness (valid => no fatal, no syntax-error warning), soundness (invalid but passed => harmless) and termination of the validator per document.",
+         "5 C19", "TLC evaluation of WellFormed / Trace_Validate over validator verdicts of generated and edited documents"),
  "C20": ("exploration",
          "Every (document, back-end) is transpiled in six process environments (two separate processes, ASLR off, allocator perturbation, cold and warm cache files in another TMPDIR); TLC checks that the digest is a function of (document, back-end) (Determinism.tla). Interpreter traces of the same cases recorded in two environments are compared by Lockstep. Only non-determinism that one of the enumerated environments provokes can be seen.",
          "5 C20", "TLC functional-dependence check over observations from several process environments (Determinism) + Lockstep"),
